@@ -9,7 +9,11 @@ setup_jax(True)
 from fdtdx.materials import compute_allowed_permittivities
 
 
-def mat(e):
+def mat(e, poles=None):
+    if poles:
+        from fdtdx.dispersion import DispersionModel, LorentzPole
+        return fdtdx.Material(permittivity=float(e), dispersion=DispersionModel(
+            poles=tuple(LorentzPole(resonance_frequency=w, damping=g, delta_epsilon=d) for w, g, d in poles)))
     if isinstance(e, list) and len(e) == 9:
         return fdtdx.Material(permittivity=tuple(tuple(float(v) for v in e[3 * r:3 * r + 3]) for r in range(3)))
     return fdtdx.Material(permittivity=(tuple(e) if isinstance(e, list) else float(e)))
@@ -23,11 +27,11 @@ def one(c):
     objs = [vol, *bd.values()]
     if c.get("bg"):
         b = c["bg"]
-        o = fdtdx.UniformMaterialObject(name="bg", partial_grid_shape=tuple(hi - lo for lo, hi in b["box"]), material=mat(b["eps"]))
+        o = fdtdx.UniformMaterialObject(name="bg", partial_grid_shape=tuple(hi - lo for lo, hi in b["box"]), material=mat(b["eps"], b.get("poles")))
         cons += box_constraints(o, b["box"])
         objs.append(o)
     for i, d in enumerate(c["devices"]):
-        mats = {f"m{j}": mat(e) for j, e in enumerate(d["mats"])}
+        mats = {f"m{j}": mat(e, (d.get("poles") or [None] * len(d["mats"]))[j]) for j, e in enumerate(d["mats"])}
         tr = [fdtdx.ClosestIndex()] if d["kind"] == "disc" else []
         shape = tuple(hi - lo for lo, hi in d["box"])
         dev = fdtdx.Device(name=f"dev{i}", materials=mats, param_transforms=tr, partial_grid_shape=shape,
@@ -68,6 +72,29 @@ def one(c):
     res["final"] = fl(cur.inv_permittivities)
     last, _, _ = fdtdx.apply_params(arrays, oc, plist[-1], KEY)
     res["last"] = fl(last.inv_permittivities)
+    if getattr(arrays, "dispersive_c1", None) is not None:
+        # dispersion coefficient stacks (isotropic scenes: component axis of length 1) before / after the history / after the last set only,
+        # and the per-material coefficient rows of every device material in the order the case lists them
+        from fdtdx.dispersion import compute_pole_coefficients
+        names = ("dispersive_c1", "dispersive_c2", "dispersive_c3")
+        npoles = int(arrays.dispersive_c1.shape[0])
+        def stack(a):
+            return [fl(np.asarray(getattr(a, n_), dtype=np.float64)[:, 0]) for n_ in names]
+        tabs = []
+        for d in oc.devices:
+            i = int(d.name[3:])
+            rows = []
+            for j in range(len(c["devices"][i]["mats"])):
+                m = d.materials[f"m{j}"]
+                row = np.zeros((3, npoles))
+                if m.dispersion is not None and len(m.dispersion.poles):
+                    cc = compute_pole_coefficients(m.dispersion.poles, cfg.time_step_duration)
+                    for q in range(3):
+                        row[q, :len(m.dispersion.poles)] = np.asarray(cc[q], dtype=np.float64)
+                rows.append(fl(row))
+            tabs.append(rows)
+        res["disp"] = {"npoles": npoles, "base": stack(arrays), "final": stack(cur), "last": stack(last), "tables": tabs,
+                       "comp_len": int(arrays.dispersive_c1.shape[1])}
     res["other_changed"] = float(np.abs(np.asarray(cur.inv_permeabilities) - np.asarray(arrays.inv_permeabilities)).max()) if np.ndim(arrays.inv_permeabilities) else 0.0
     return res
 
